@@ -186,6 +186,8 @@ def worker_main(argv: list[str]) -> int:
                 minimised += 1
                 try:
                     def still(c: dict, _tag=vj["tag"], _ctx=vj.get("context", {})):
+                        if hasattr(mod, "valid_trace") and not mod.valid_trace(c):
+                            return None  # the candidate left the property's preconditions
                         o = mod.execute(c)
                         for vv in [o.violation] + list(o.extra_violations):
                             if vv is not None and vv.tag == _tag and match_known(vv.to_json(), findings) is None:
